@@ -1,8 +1,10 @@
 import FlatModel.Props.C11
 import FlatModel.Props.C12
+import FlatModel.Props.UniverseOps
 #print axioms FC.C12.kth
 #print axioms FC.C12.count_default
 #print axioms FC.C12.count_clear
 #print axioms FC.C12.columns_kth
 #print axioms FC.C12.columns_row_exact
 #print axioms FC.C12.count_merge
+#print axioms FC.Universe.C12_merge_every_consec
